@@ -101,6 +101,7 @@ class C12(Scenario):
         elif arm == "multi-mesh":
             fam["flat_form"] = 0.6
             cfg["n_meshes"] = rng.choice([2, 2, 3])
+            cfg["mirror_geo"] = True
         elif arm == "salt":
             fam["shape_derivative"] = 0.5
             fam["flat_form"] = 0.1
